@@ -45,29 +45,30 @@ Proof.
   destruct (vcaps caps); discriminate.
 Qed.
 
-Lemma rev_failed_fixed r : rev_failed true r <> None.
-Proof. destruct r; discriminate. Qed.
+Lemma rev_failed_fixed r : rev_wf r = true -> rev_failed true r <> None.
+Proof. destruct r; cbn; intros H; try discriminate; discriminate H. Qed.
 
-(* since fix d78db00 no answer of the revocation validator reaches a dereference *)
-Lemma native_no_panic l sc caps : native l sc caps <> NPanic.
+(* since fix d78db00 no result vector of the revocation validator reaches a dereference, whatever its
+   shape; a nil server result inside a result still does ([sc_wf]) *)
+Lemma native_no_panic l sc caps : sc_wf sc = true -> native l sc caps <> NPanic.
 Proof.
-  unfold native, native_gen.
-  pose proof (rev_failed_fixed (s_rev sc)) as Hr.
+  intros Hsc. unfold native, native_gen.
+  pose proof (rev_failed_fixed (s_rev sc) Hsc) as Hr.
   destruct (rev_failed true (s_rev sc)) as [f|]; [|congruence].
   repeat (brk1; try discriminate).
 Qed.
 
-Lemma process_signature_no_panic l pm sc :
+Lemma process_signature_no_panic l pm sc : sc_wf sc = true ->
   process_signature l pm sc <> PSPanic.
 Proof.
-  unfold process_signature, process_signature_gen, presp_nil_res; fold discover.
+  intros Hsc. unfold process_signature, process_signature_gen, presp_nil_res; fold discover.
   destruct (s_sig sc); try discriminate.
   pose proof (discover_no_panic pm sc) as Hd.
   destruct (discover pm sc) as [|e| |caps] eqn:Ed; try congruence; try discriminate.
-  - pose proof (native_no_panic l sc []) as Hn.
+  - pose proof (native_no_panic l sc [] Hsc) as Hn.
     destruct (native l sc []) eqn:En; try congruence; try discriminate.
     cbn. destruct (s_crit sc); discriminate.
-  - pose proof (native_no_panic l sc caps) as Hn.
+  - pose proof (native_no_panic l sc caps Hsc) as Hn.
     destruct (native l sc caps) eqn:En; try congruence; try discriminate.
     destruct (caps_to_verify l caps) eqn:Ec.
     + cbn. discriminate.
@@ -122,14 +123,14 @@ Lemma skip_out_good : good_outc skip_out.
 Proof. unfold good_outc; cbn; discriminate. Qed.
 
 Lemma verify_oci_good v sc :
-  sel_wf (v_oci v) = true ->
+  sel_wf (v_oci v) = true -> sc_wf sc = true ->
   good_v (oci_selected v) (verify_oci v sc).
 Proof.
-  intros Hsel. unfold verify_oci, oci_selected.
+  intros Hsel Hsc. unfold verify_oci, oci_selected.
   destruct (v_oci v) as [[| |l]|]; try (apply gv_err_early; reflexivity); [discriminate Hsel|].
   destruct (is_skip l).
   { apply gv_ok; [reflexivity | reflexivity | discriminate | apply skip_out_good]. }
-  pose proof (process_signature_no_panic l (v_pm v) sc) as Hn.
+  pose proof (process_signature_no_panic l (v_pm v) sc Hsc) as Hn.
   destruct (process_signature l (v_pm v) sc) as [|[e|] c rs] eqn:E; try congruence.
   - apply gv_err_out; [reflexivity | reflexivity | apply out_of_um].
   - rewrite (process_signature_success_content _ _ _ _ _ E). cbn [negb].
@@ -141,14 +142,14 @@ Proof.
 Qed.
 
 Lemma verify_blob_good v sc :
-  sel_wf (v_blob v) = true ->
+  sel_wf (v_blob v) = true -> sc_wf sc = true ->
   good_v (blob_selected v) (verify_blob v sc).
 Proof.
-  intros Hsel. unfold verify_blob, blob_selected.
+  intros Hsel Hsc. unfold verify_blob, blob_selected.
   destruct (v_blob v) as [[| |l]|]; try (apply gv_err_early; reflexivity); [discriminate Hsel|].
   destruct (is_skip l).
   { apply gv_ok; [reflexivity | reflexivity | discriminate | apply skip_out_good]. }
-  pose proof (process_signature_no_panic l (v_pm v) sc) as Hn.
+  pose proof (process_signature_no_panic l (v_pm v) sc Hsc) as Hn.
   destruct (process_signature l (v_pm v) sc) as [|[e|] c rs] eqn:E; try congruence.
   - apply gv_err_out; [reflexivity | reflexivity | apply out_of_um].
   - rewrite (process_signature_success_content _ _ _ _ _ E). cbn [negb].
@@ -180,12 +181,12 @@ Lemma call_of_good_v sel o :
 Proof. intros H; destruct H; try (apply gc_err). apply gc_ok; assumption. Qed.
 
 Lemma call_verify_good impl v sc :
-  sel_wf (v_oci v) = true ->
+  sel_wf (v_oci v) = true -> sc_wf sc = true ->
   impl <> VNil -> impl_wf impl = true ->
   good_call (call_verify impl v sc).
 Proof.
-  intros Hsel Hn Hi. destruct impl as [| |out err]; [congruence| |].
-  - cbn. apply (call_of_good_v _ _ (verify_oci_good v sc Hsel)).
+  intros Hsel Hsc Hn Hi. destruct impl as [| |out err]; [congruence| |].
+  - cbn. apply (call_of_good_v _ _ (verify_oci_good v sc Hsel Hsc)).
   - cbn. destruct err; [apply gc_err|].
     destruct out as [c|]; cbn in Hi; [|discriminate].
     apply gc_ok; [|apply custom_outc_good].
@@ -193,12 +194,12 @@ Proof.
 Qed.
 
 Lemma call_verify_blob_good impl v sc :
-  sel_wf (v_blob v) = true ->
+  sel_wf (v_blob v) = true -> sc_wf sc = true ->
   impl <> VNil -> impl_wf impl = true ->
   good_call (call_verify_blob impl v sc).
 Proof.
-  intros Hsel Hn Hi. destruct impl as [| |out err]; [congruence| |].
-  - cbn. apply (call_of_good_v _ _ (verify_blob_good v sc Hsel)).
+  intros Hsel Hsc Hn Hi. destruct impl as [| |out err]; [congruence| |].
+  - cbn. apply (call_of_good_v _ _ (verify_blob_good v sc Hsel Hsc)).
   - cbn. destruct err; [apply gc_err|].
     destruct out as [c|]; cbn in Hi; [|discriminate].
     apply gc_ok; [|apply custom_outc_good].
@@ -219,12 +220,13 @@ Inductive good_loop : lres -> Prop :=
 
 Lemma nloop_good impl v : sel_wf (v_oci v) = true ->
   impl <> VNil -> impl_wf impl = true -> 
-  forall k any items, good_loop (nloop impl v k any items).
+  forall k any items, forallb item_wf items = true -> good_loop (nloop impl v k any items).
 Proof.
-  intros Hsel Hn Hi. induction k as [|k IH]; intros any items; cbn [nloop].
+  intros Hsel Hn Hi. induction k as [|k IH]; intros any items Hit; cbn [nloop].
   - constructor.
   - destruct items as [|[|sc] rest]; try constructor.
-    pose proof (call_verify_good impl v sc Hsel Hn Hi) as Hc.
+    cbn [forallb item_wf] in Hit. apply andb_prop in Hit as [Hsc Hrest].
+    pose proof (call_verify_good impl v sc Hsel Hsc Hn Hi) as Hc.
     inversion Hc as [o Ho Hg Heq | o e Heq].
     + apply gl_succ; assumption.
     + destruct o; [apply IH; assumption | constructor].
@@ -242,10 +244,10 @@ Qed.
 
 Lemma nverify_good impl v n :
   sel_wf (v_oci v) = true ->
-  impl_wf impl = true -> 
+  impl_wf impl = true -> forallb item_wf (n_items n) = true ->
   good_n (nverify impl v n).
 Proof.
-  intros Hsel Hi. unfold nverify.
+  intros Hsel Hi Hit. unfold nverify.
   destruct impl as [| |out err] eqn:Eimpl; [apply gn_err| |].
   - (* the library's verifier *)
     destruct (n_repo_nil n); [apply gn_err|].
@@ -258,7 +260,7 @@ Proof.
       destruct (n_digest_mismatch n); [apply gn_err|].
       destruct (n_list_err n); [apply gn_err|].
       assert (Hn : VLib <> VNil) by discriminate.
-      pose proof (nloop_good VLib v Hsel Hn Hi (Z.to_nat (n_max n)) false (n_items n)) as Hl.
+      pose proof (nloop_good VLib v Hsel Hn Hi (Z.to_nat (n_max n)) false (n_items n) Hit) as Hl.
       inversion Hl as [e He|o Ho Hg He| |b He]; try apply gn_err.
       * apply gn_ok; assumption.
       * destruct b; apply gn_err.
@@ -269,7 +271,7 @@ Proof.
     destruct (n_digest_mismatch n); [apply gn_err|].
     destruct (n_list_err n); [apply gn_err|].
     assert (Hn : VCustom out err <> VNil) by discriminate.
-    pose proof (nloop_good (VCustom out err) v Hsel Hn Hi (Z.to_nat (n_max n)) false (n_items n)) as Hl.
+    pose proof (nloop_good (VCustom out err) v Hsel Hn Hi (Z.to_nat (n_max n)) false (n_items n) Hit) as Hl.
     inversion Hl as [e He|o Ho Hg He| |b He]; try apply gn_err.
     + apply gn_ok; assumption.
     + destruct b; apply gn_err.
@@ -294,11 +296,11 @@ Proof.
 Qed.
 
 Lemma nverify_blob_good impl v b sc :
-  sel_wf (v_blob v) = true ->
+  sel_wf (v_blob v) = true -> sc_wf sc = true ->
   impl_wf impl = true ->
   good_n (nverify_blob impl v b sc).
 Proof.
-  intros Hsel Hi. unfold nverify_blob.
+  intros Hsel Hsc Hi. unfold nverify_blob.
   destruct impl as [| |out err] eqn:Eimpl; [apply gn_err| |].
   - destruct (b_reader_nil b); [apply gn_err|].
     assert (Hn : VLib <> VNil) by discriminate.
@@ -315,9 +317,11 @@ Qed.
 (* ---------- the model as a whole ---------- *)
 Lemma wf_parts i : wf i = true ->
   impl_wf (i_impl i) = true /\
-  sel_wf (v_oci (i_v i)) = true /\ sel_wf (v_blob (i_v i)) = true.
+  sel_wf (v_oci (i_v i)) = true /\ sel_wf (v_blob (i_v i)) = true /\
+  sc_wf (i_sc i) = true /\ forallb item_wf (n_items (i_n i)) = true.
 Proof.
   unfold wf. intros H.
+  apply andb_prop in H as [H Hit]. apply andb_prop in H as [H Hsc].
   apply andb_prop in H as [H Hi]. apply andb_prop in H as [Ho Hb].
   repeat split; assumption.
 Qed.
@@ -347,7 +351,7 @@ Qed.
 
 Theorem no_panic i : wf i = true -> returns_normally (model i).
 Proof.
-  intros Hwf. destruct (wf_parts i Hwf) as (Hi & Hso & Hsb).
+  intros Hwf. destruct (wf_parts i Hwf) as (Hi & Hso & Hsb & Hsc & Hit).
   unfold model. destruct (uses_lib i && construct_fails i).
   { split; [discriminate|]. intros; discriminate. }
   destruct (i_entry i).
@@ -392,13 +396,13 @@ Theorem consistent_verifier i f l outs err :
      exists oc, outs = [Some oc] /\ oc_err oc = Some e /\ oc_same oc = true) /\
   (err = None -> exists oc, outs = [Some oc] /\ oc_same oc = true /\ oc_level oc <> None).
 Proof.
-  intros Hwf Hent Hm. destruct (wf_parts i Hwf) as (Hi & Hso & Hsb).
+  intros Hwf Hent Hm. destruct (wf_parts i Hwf) as (Hi & Hso & Hsb & Hsc & Hit).
   unfold model in Hm. destruct (uses_lib i && construct_fails i); [discriminate|].
   destruct Hent as [Hent|Hent]; rewrite Hent in Hm.
   - rewrite (policy_selected_verify i Hent).
-    exact (good_v_consistent _ _ _ _ _ _ (verify_oci_good _ _ Hso) Hm).
+    exact (good_v_consistent _ _ _ _ _ _ (verify_oci_good _ _ Hso Hsc) Hm).
   - rewrite (policy_selected_blob i Hent).
-    exact (good_v_consistent _ _ _ _ _ _ (verify_blob_good _ _ Hsb) Hm).
+    exact (good_v_consistent _ _ _ _ _ _ (verify_blob_good _ _ Hsb Hsc) Hm).
 Qed.
 
 Lemma good_n_consistent o f l outs err :
@@ -417,11 +421,11 @@ Theorem consistent_notation i f l outs err :
   (err = None <-> exists oc, outs = [Some oc] /\ oc_err oc = None) /\
   (err <> None -> outs = [] /\ f = false).
 Proof.
-  intros Hwf Hent Hm. destruct (wf_parts i Hwf) as (Hi & Hso & Hsb).
+  intros Hwf Hent Hm. destruct (wf_parts i Hwf) as (Hi & Hso & Hsb & Hsc & Hit).
   unfold model in Hm. destruct (uses_lib i && construct_fails i); [discriminate|].
   destruct Hent as [Hent|Hent]; rewrite Hent in Hm.
-  - exact (good_n_consistent _ _ _ _ _ (nverify_good _ _ _ Hso Hi) Hm).
-  - exact (good_n_consistent _ _ _ _ _ (nverify_blob_good _ _ _ _ Hsb Hi) Hm).
+  - exact (good_n_consistent _ _ _ _ _ (nverify_good _ _ _ Hso Hi Hit) Hm).
+  - exact (good_n_consistent _ _ _ _ _ (nverify_blob_good _ _ _ _ Hsb Hsc Hi) Hm).
 Qed.
 
 Theorem consistent_skip_verify v f l outs err :
@@ -464,7 +468,7 @@ Qed.
 
 Theorem model_spec_cons i : wf i = true -> spec_cons i (model i) = true.
 Proof.
-  intros Hwf. destruct (wf_parts i Hwf) as (Hi & Hso & Hsb).
+  intros Hwf. destruct (wf_parts i Hwf) as (Hi & Hso & Hsb & Hsc & Hit).
   unfold model. destruct (uses_lib i && construct_fails i); [reflexivity|].
   destruct (i_entry i) eqn:Hent.
   - apply spec_cons_good_v; [now left|]. rewrite (policy_selected_verify i Hent).
@@ -760,7 +764,10 @@ Definition sc_rev (r : revr) : scenario :=
 
 Theorem contracts_needed :
   model (i_base ENVerifyBlob (v_strict PMNil) (VCustom None false) sc_good) = OPanic /\
-  model (i_base EVerify (mk_v (Some SelBadLevel) None PMNil) VLib sc_good) = OPanic.
+  model (i_base EVerify (mk_v (Some SelBadLevel) None PMNil) VLib sc_good) = OPanic /\
+  model (i_base EVerify (v_strict PMNil) VLib (sc_rev RevNilServer)) = OPanic /\
+  model (mk_input ENVerify false (v_strict PMNil) VLib sc_good
+                  (mk_nreq false 1 RefOK false false false [Sig (sc_rev RevNilServer)]) b_good CCNone) = OPanic.
 Proof. repeat split; reflexivity. Qed.
 
 (* before fix 686cc56 a verification plugin answering (nil, nil) to get-plugin-metadata or to
